@@ -90,6 +90,7 @@ type Env struct {
 	OrderKey uint64
 	Budget   int64
 	Sched    bool // running as a task under the scheduler
+	Fresh    bool // first call of a fresh process: install the package-level loader the operation expects
 }
 
 // OpResult is everything observable about one operation.
@@ -377,7 +378,7 @@ func ExecOp(op Op, env *Env) *OpResult {
 	if rootVal != nil {
 		res.RootBefore, _ = json.Marshal(rootVal)
 	}
-	if op.LoaderTag != "" && !env.Sched {
+	if op.LoaderTag != "" && !env.Sched && (op.Install || env.Fresh) {
 		SetGlobalLoader(op.LoaderTag)
 	}
 	run := func() {
